@@ -269,6 +269,28 @@ pub fn binder_templates() -> Vec<&'static str> {
   ]
 }
 
+/// Templates that read the outer binding (`O`, spelled like the binder `B`) after an expression that introduced `B`:
+/// the introduced name ends with its expression, whatever that expression evaluated to.
+pub fn after_binder_templates() -> Vec<&'static str> {
+  vec![
+    "[every B in [1, 2, 3] satisfies B > 1, O]",
+    "[every B in [1, 2, 3] satisfies B > 0, O]",
+    "[every B in [3, 2, 1] satisfies B > 1, O]",
+    "[some B in [1, 2, 3] satisfies B > 2, O]",
+    "[some B in [1, 2, 3] satisfies B > 5, O]",
+    "[some B in [1, null] satisfies B, O]",
+    "[for B in [1, 2] return B, O]",
+    "[(function(B) B + 1)(7), O]",
+    "[{B: 7, m: B}.m, O]",
+    "if (every B in [1, 2] satisfies B > 1) then 0 else O",
+    "if (some B in [1, 2] satisfies B > 1) then O else 0",
+    "[O, every B in [1, 2] satisfies B > 1, O, some B in [1, 2] satisfies B > 0, O]",
+    "{k: every B in [1, 2] satisfies B > 1, m: O}.m",
+    "(function(q) O + q)(if (every B in [2, 1] satisfies B > 1) then 0 else 1)",
+    "for i in [1, 2] return [every B in [i] satisfies B > 1, O]",
+  ]
+}
+
 fn num(i: i128) -> Value {
   Value::Number(FeelNumber::from_i128(i))
 }
@@ -486,8 +508,9 @@ pub fn run() {
     if let Some((b, _, _)) = set.first() {
       let others: Vec<(NameParts, Value, String)> = set.iter().skip(1).cloned().collect();
       for sp in b.spellings() {
-        for (t, shadow) in bt.iter().flat_map(|t| [(t, false), (t, true)]) {
-          let text = t.replace('B', &sp);
+        let after = after_binder_templates();
+        for (t, shadow, reads_after) in bt.iter().flat_map(|t| [(t, false, false), (t, true, false)]).chain(after.iter().map(|t| (t, true, true))) {
+          let text = t.replace('B', &sp).replace('O', &sp);
           // expected: the binder renamed to a fresh single word
           cnt.cases.fetch_add(1, Ordering::Relaxed);
           let mut ctx = FeelContext::default();
@@ -500,9 +523,14 @@ pub fn run() {
           if shadow {
             ctx.set_entry(&Name::from(b.normal().as_str()), num(999));
           }
-          subst.insert(b.normal(), "zq".to_string());
+          let expected_text = if reads_after {
+            // the introduced name renamed, the outer occurrences replaced by the outer value
+            substitute(&t.replace('B', "zq").replace('O', "(999)"), &subst)
+          } else {
+            subst.insert(b.normal(), "zq".to_string());
+            substitute(&text, &subst)
+          };
           let scope = Scope::from(ctx);
-          let expected_text = substitute(&text, &subst);
           let expected = match evaluate_meaning(&expected_text) {
             Ok(v) => v,
             Err(_) => {
@@ -519,7 +547,7 @@ pub fn run() {
           if !ok {
             let names: Vec<String> = others.iter().map(|(n, _, _)| n.normal()).collect();
             run.violation(
-              &format!("binder{}:`{}`:{}:set-of-{}", if shadow { "-shadowing-an-outer-binding" } else { "" }, t, symbol_class(b), set.len()),
+              &format!("binder{}:`{}`:{}:set-of-{}", if reads_after { "-ended-outer-binding-read-again" } else if shadow { "-shadowing-an-outer-binding" } else { "" }, t, symbol_class(b), set.len()),
               &format!(
                 "`{}` (other bound names {:?}) evaluates to {} but with the introduced name renamed, `{}`, it evaluates to {}",
                 text,
